@@ -26,6 +26,7 @@ SCHEMA = {
     'FMFeatureAncestors': {'result': SEQ(REF('Feature')), 'feature': REF('Feature')},
     'FMEstimatedConfigurationsNumber': {'result': INT, 'feature_model': REF('FeatureModel')},
     'FMCoreFeatures': {'result': SEQ(REF('Feature'))},
+    'UVLReader': {'path': STR, 'file': STR, 'parse_tree': PYVAL, 'namespace': STR, 'model': REF('FeatureModel')},
     'FMMetrics': {'model': REF('FeatureModel'), '_features': SEQ(REF('Feature')), '_feature_ancestors': SEQ(INT),
                   '_constraints_per_features': SEQ(INT), '_leaf_features': SEQ(STR), 'filter': PYVAL},
 }
